@@ -49,7 +49,7 @@ pub fn method_ok(api: i64, st: u8, m: i64) -> bool {
 /// Expected observation log of an entry chain, and its effect on the model.
 /// `ks` = serial of the key handed to entry()/rustc_entry() (0 for by-reference flavours),
 /// `k2` = serials of spare key instances handed to raw inserts / insert_key.
-pub fn model_chain(model: &mut MapModel, api: i64, kid: u32, ks: u32, methods: &[i64], vals: &[(u32, u32)], k2: &[u32]) -> Vec<Ev> {
+pub fn model_chain(model: &mut MapModel, api: i64, kid: u32, ks: u32, methods: &[i64], vals: &[(u32, u32)], k2: &[u32], tgl: u32) -> Vec<Ev> {
     let mut log = Vec::new();
     let mut st = 0u8; // 0 E, 1 O, 2 V, 3 done
     let mut eks = if api == 1 { FRESH } else { ks };
@@ -114,7 +114,7 @@ pub fn model_chain(model: &mut MapModel, api: i64, kid: u32, ks: u32, methods: &
             }
             (0, 6) => {
                 if let Some(i) = occ {
-                    model.e[i].v ^= TOGGLE;
+                    model.e[i].v ^= tgl;
                 }
             }
             (0, 7) => {
@@ -157,7 +157,7 @@ pub fn model_chain(model: &mut MapModel, api: i64, kid: u32, ks: u32, methods: &
             (1, 12) | (1, 13) => {
                 let i = occ.unwrap();
                 log.push(Ev::Val(model.e[i].v, model.e[i].vs));
-                model.e[i].v ^= TOGGLE;
+                model.e[i].v ^= tgl;
                 if m == 13 {
                     st = 3;
                 }
@@ -166,7 +166,7 @@ pub fn model_chain(model: &mut MapModel, api: i64, kid: u32, ks: u32, methods: &
                 let i = occ.unwrap();
                 log.push(Ev::Key(model.e[i].kid, model.e[i].ks));
                 log.push(Ev::Val(model.e[i].v, model.e[i].vs));
-                model.e[i].v ^= TOGGLE;
+                model.e[i].v ^= tgl;
                 if m == 34 {
                     st = 3;
                 }
@@ -321,7 +321,7 @@ impl<K: KeyT, V: ValT> MapWorld<K, V> {
                 None => vec![Ev::Occ(false)],
             }
         } else {
-            model_chain(&mut expect_model, api, kid, ks, &methods, &vtoks, &k2)
+            model_chain(&mut expect_model, api, kid, ks, &methods, &vtoks, &k2, Self::TG)
         };
         let m = self.slots[si].map.as_mut().unwrap();
         let mut spare_v: Vec<V> = Vec::new();
